@@ -33,3 +33,14 @@ Theorem C08_fold : forall owned g init a,
   fold_ owned g None init a =
   (FoldOk (fold_acc g 0 init a), (if owned then map EMove a else []), a).
 Proof. exact fold_ok. Qed.
+
+(* ---- tie to the current source (tools/ga2coq, coq/gen/GenDeleg.v): the bodies of the trait
+        impls as they stand in the source now are the delegations the model implements ---- *)
+From Coq Require Import String.
+From GA Require Import Deleg DelegTie.
+From GAGen Require Import GenDeleg.
+Local Open Scope string_scope.
+Theorem C08_source_clone_default :
+  lookup "Clone::clone" gen_delegations = Some (DMap VSelf "Clone::clone") /\
+  lookup "Default::default" gen_delegations = Some (DGenerate "T::default").
+Proof. rewrite !tie_deleg_of. repeat split. Qed.
